@@ -81,6 +81,14 @@ def cases(tier, seed):
                 for mode in ("centres", "ids"):
                     out.append(dict(part="seq", n=n, chunksize=cs, source="frame", cols="wz", dtype="f8",
                                     degrees=True, mode=mode, progress=False, buffersize=buf))
+    # integer storage types of the patch-id and weight columns (FITS stores unsigned integers as scaled signed
+    # ones); both patch options at once (the id column must be ignored when centres are given)
+    for n, cs, source in itertools.product((3, 6), (2, None), ("frame", "fits", "hdf", "pq2")):
+        for idt in ("u1", "u2", "i2", "u4", "i4", "u8"):
+            out.append(dict(part="seq", n=n, chunksize=cs, source=source, cols="wz", dtype="f8", degrees=True,
+                            mode="ids", progress=False, int_dtype=idt))
+        out.append(dict(part="seq", n=n, chunksize=cs, source=source, cols="wz", dtype="f8", degrees=True,
+                        mode="centres+ids", progress=False))
     if tier == "thorough":
         for n in (8, 9, 12):
             for cs in (3, n, None):
@@ -135,9 +143,16 @@ def make_source(case, d):
         names["redshift_name"] = "z"
     kw = dict(names, degrees=deg, chunksize=case["chunksize"], progress=case.get("progress", False))
     mode = case["mode"]
+    if "int_dtype" in case:  # weights as integers of that storage type, patch ids too
+        cols["w"] = (w * 16).astype(case["int_dtype"])
     if mode == "ids":
-        cols["pid"] = pid.astype("i8")
+        cols["pid"] = pid.astype(case.get("int_dtype", "i8"))
         kw["patch_name"] = "pid"
+    elif mode == "centres+ids":
+        # an id column that describes another partition than the centres; documented: ignored if centres are given
+        cols["pid"] = ((pid + 1) % min(3, n)).astype("i8")
+        kw["patch_name"] = "pid"
+        kw["patch_centers"] = AngularCoordinates(np.deg2rad(CENTRES[: min(3, n)]))
     elif mode == "centres":
         kw["patch_centers"] = AngularCoordinates(np.deg2rad(CENTRES[: min(3, n)]))
     else:
@@ -184,7 +199,7 @@ def expected_records(case, cols):
         rows["redshifts"] = f(cols["z"])
     if case["mode"] == "ids":
         patch = np.asarray(cols["pid"]).astype(int)
-    elif case["mode"] == "centres":
+    elif case["mode"] in ("centres", "centres+ids"):
         patch, margin = ref.ref_assign(np.column_stack([ra, dec]), np.deg2rad(CENTRES[: min(3, n)]))
         assert n == 0 or margin.min() > 1e-6
     else:
